@@ -151,3 +151,32 @@ package phantoms
 //@   assigns nothing
 //@ loop 1:
 //@   invariant fresh(mask) && 0 <= i
+
+// ---------------- C01: the station's phantom subnet configuration ----------------
+// C01 "station and client derive the same phantom from the same configuration": selection depends on the ORDER of a
+// generation's weighted groups (equal weights are tie-broken by list position, for every client library version), so
+// the loader hands each generation to the selector exactly as the file lists it: it only loads, decodes, converts the
+// generation key and adds - it calls nothing else, and it writes to nothing but what it builds itself.
+//@ import strconv "strconv"
+// a generation is stored under the number the file gives it (unless that number is -1 or already taken), as the very
+// configuration object that was passed in; no other generation is touched
+//@ func (p *PhantomIPSelector) newGenerationIndex() uint
+//@   requires p != nil
+//@   assigns nothing
+//@ loop 1:
+//@   invariant p != nil
+//@ func (p *PhantomIPSelector) AddGeneration(gen int, subnets *SubnetConfig) uint
+//@   requires p != nil && p.Networks != nil
+//@   ensures @C01: result in p.Networks && p.Networks[result] == subnets
+//@   ensures @C01: gen != -1 && gen >= 0 && !old(gen in p.Networks) ==> result == gen
+//@   ensures @C01: forall k uint :: k != result ==> (k in p.Networks) == old(k in p.Networks) && p.Networks[k] == old(p.Networks[k])
+//@   assigns mapof(p.Networks)
+//@ func SubnetsFromTomlFile(path string) (*PhantomIPSelector, error)
+//@   callsonly @C01: toml.LoadFile, Tree).Unmarshal, strconv.Atoi, AddGeneration, fmt.Errorf
+//@   atcall AddGeneration before: assert @C01: arg0 == pss && arg2 == set
+//@   ensures @C01: true
+//@   assigns nothing
+//@ loop 1:
+//@   invariant pss != nil && fresh(pss)
+//@   invariant pss.Networks != nil
+//@   invariant phantomSelectorSet != nil
